@@ -3,16 +3,19 @@
    the window for any id; the rate controller's step never panics from a reachable state for any feedback; the
    receiver's slot and channel indices stay inside their arrays for any datagram stream; and, for the whole
    HalfConnection: in EVERY state reachable by ANY sequence of send / receive / step / flush / frame
-   operations, handling ANY frame returns normally (C03_frame_never_panics) — the frame queue's log, transfer
-   window and reorder buffer stay consistent (FrameQueueProofs.v, ReorderProofs.v), so that no
-   `get_frame(..).unwrap()`, no `drain(..idx)` and no window release can fail on network input.
-   NOT proved: termination of the emit loops of flush() within their fuel and absence of panics in step()/flush()
-   themselves (application-driven; the theorem treats a flush or step that does not return as not having happened),
-   and the Client / Server composition. Those are decided on the implementation (debug AND release builds, with a
-   hang watchdog) by the hostile / pair streams and through the model correspondence, in which every modelled
-   panic site and loop bound is explicit (partial, see DESIGN.md). *)
+   operations, EVERY such operation returns normally — no panic site is reached and every loop ends within the
+   fuel the model gives it (C03_half_connection_total). The invariant behind it: the frame log, transfer window
+   and reorder buffer stay consistent (FrameQueueProofs.v, ReorderProofs.v), the send window is well formed
+   (SenderProofs.v), the rate controller has a receive-rate set and an RTT whenever it needs them, and the loss
+   interval queue is non-empty whenever a loss increase can be reported (HcStepTotal.v); flush() terminates by a
+   potential argument over (resend entries, free window slots, datagrams left in the frame being built)
+   (HcFlushTotal.v — the repaired livelock D2 lived in exactly these loops).
+   NOT proved: the Client / Server composition around the half-connection (event heap, address table). That is
+   decided on the implementation (debug AND release builds, with a hang watchdog) by the hostile / pair /
+   lifecycle streams and through the model correspondence, in which every modelled panic site and loop bound is
+   explicit (partial, see DESIGN.md). *)
 From UF Require Import Consts Base Frame Codec Sender Receiver SendRate FrameQueue HalfConn Endpoint
-                       CodecTotal SenderProofs ReceiverProofs SendRateProofs FrameQueueProofs HcTotal.
+                       CodecTotal SenderProofs ReceiverProofs SendRateProofs FrameQueueProofs HcTotal HcFlushTotal HcStepTotal.
 
 Theorem C03_read_total : forall bs : list N, exists r, read_frame bs = Ok r.
 Proof. exact read_frame_total. Qed.
@@ -44,6 +47,18 @@ Theorem C03_frame_never_panics :
     exists h' k, hc_handle_frame (fold_left hc_apply ops (hc_new c seed)) f = Ok (h', k).
 Proof. exact hc_frame_never_panics. Qed.
 Print Assumptions C03_frame_never_panics.
+
+(* every operation, every reachable state: neither Panic nor Hang *)
+Theorem C03_half_connection_total :
+  forall c seed ops o,
+    cfg_ok c -> Forall op_ok ops -> op_ok o ->
+    hc_op_result (fold_left hc_apply ops (hc_new c seed)) o = Ok tt.
+Proof. exact hc_never_panics_or_hangs. Qed.
+Print Assumptions C03_half_connection_total.
+
+Theorem C03_flush_terminates :
+  forall c seed ops, cfg_ok c -> Forall op_ok ops -> exists r, hc_flush (fold_left hc_apply ops (hc_new c seed)) = Ok r.
+Proof. exact hc_flush_never_hangs. Qed.
 
 (* the configurations Client and Server actually construct (Endpoint.v, hc_config_of) satisfy cfg_ok *)
 Theorem C03_endpoint_configs_ok :
@@ -87,6 +102,9 @@ Proof.
   split; vm_compute; reflexivity.
 Qed.
 
+Check C03_half_connection_total :
+  forall c seed ops o, cfg_ok c -> Forall op_ok ops -> op_ok o ->
+    hc_op_result (fold_left hc_apply ops (hc_new c seed)) o = Ok tt.
 Check C03_frame_never_panics :
   forall c seed ops f, cfg_ok c -> Forall op_ok ops -> frame_u32_ok f ->
     exists h' k, hc_handle_frame (fold_left hc_apply ops (hc_new c seed)) f = Ok (h', k).
